@@ -234,6 +234,15 @@ RULES = {
  'bp_small': [
   {'id': 'bp_init_reader_count', 'file': 'src/urcu-bp.c', 'kind': 'regex', 'pattern': r'^#define INIT_READER_COUNT\s+8\s*$', 'repl': '#define INIT_READER_COUNT\t2', 'count': 1},
  ],
+ 'wq_fork': [
+  L('wq_pause_loop', 'src/workqueue.c', 'urcu_workqueue_pause_worker', 'while', 1, 'wq_pause', count=1),
+  L('wq_resume_loop', 'src/workqueue.c', 'urcu_workqueue_resume_worker', 'while', 1, 'wq_resume', count=1),
+  # indirect calls of the worker -> dispatch macros (default definition: the call itself)
+  {'id': 'wq_work_call', 'file': 'src/workqueue.c', 'kind': 'regex', 'pattern': r'^(\s*)uwp->func\(uwp\);\s*$', 'repl': r'\1URCU_VERIF_WORK(uwp);', 'count': 1,
+   'default_defs': {'URCU_VERIF_WORK': '#define URCU_VERIF_WORK(w) (w)->func(w)'}},
+  {'id': 'wq_cb_calls', 'file': 'src/workqueue.c', 'kind': 'regex', 'pattern': r'^(\s*)workqueue->(\w+_fct)\(workqueue, workqueue->priv\);\s*$', 'repl': r'\1URCU_VERIF_WQCB(\2, workqueue);', 'count': 7,
+   'default_defs': {'URCU_VERIF_WQCB': '#define URCU_VERIF_WQCB(f, wq) (wq)->f((wq), (wq)->priv)'}},
+ ],
  'callrcu': [
   # indirect callback invocation -> recorder (default definition: the call itself)
   {'id': 'helper_indirect_call', 'file': 'src/urcu-call-rcu-impl.h', 'kind': 'regex', 'pattern': r'^(\s*)rhp->func\(rhp\);\s*$', 'repl': r'\1URCU_VERIF_CB(rhp);', 'count': 1,
